@@ -1,4 +1,425 @@
 import RtcVerif.Model.C01Colloc
+import RtcVerif.Proofs.C01Lists
+import RtcVerif.Proofs.C01Colloc
+import RtcVerif.Proofs.C01Rows
+import RtcVerif.Proofs.C01Inputs
+import RtcVerif.Proofs.C01Own
+import Mathlib.Algebra.Order.Group.Abs
+/-!
+# C01 — transcribed dynamics are exactly the theta-method discretisation of the DAE
+
+All theorems are about the executable model `Model/C01Colloc.lean` (the code path of
+`transcribe()`), for an **arbitrary** residual function `F` and initial-equation function `Finit`
+(linear or not), any numbers of variables / inputs / parameters / equations, any layout `idx`,
+any grid, any `theta`, any nominals, any ensemble size and any per-member data.  Helper lemmas
+live in `Proofs/C01*.lean`.
+
+Remark on hypotheses.  The refinement theorems need neither `0 ≤ theta ≤ 1`, nor positive
+nominals, nor a strictly increasing grid: the code-level assembly and the specification agree as
+functions for all values.  (For a grid with a repeated stamp both sides divide by `dt = 0`, which
+is `0` in Lean and `inf/nan` in the implementation; a strictly increasing grid is a precondition
+of the property, not of the refinement.)
+-/
 namespace RtcVerif.C01
-theorem stub_placeholder : (1 : Nat) = 1 := rfl
+open RtcVerif RtcVerif.Interp
+
+/-! ## The specification -/
+
+/-- what the data of a valid problem satisfy: every member supplies a value for every parameter,
+    every constant input series is non-empty with increasing stamps and a known interpolation
+    mode, the differentiated states are among the collocated variables -/
+structure Inst.WF (I : Inst) : Prop where
+  par_len : ∀ m, m < I.E → (I.pvals m).length = I.npar
+  cin_sorted : ∀ m j, m < I.E → j < I.sys.nc → Sorted (I.cin m j)
+  cin_ne : ∀ m j, m < I.E → j < I.sys.nc → I.cin m j ≠ []
+  cmode_ok : ∀ j, j < I.sys.nc → I.cmode j ≤ 2
+  nd_le : I.sys.nd ≤ I.sys.k
+
+/-- the member's own constant inputs at collocation time `i` -/
+def memberInputs (I : Inst) (m i : Nat) : List Rat :=
+  (List.range I.sys.nc).map (fun j => inputOwn I m j (I.sys.ts i))
+
+/-- the member's decoded physical trajectory on the collocation grid -/
+def traj (I : Inst) (X : Vec) (m i : Nat) : List Rat := decode I.sys X (I.idx m) i
+
+/-- **theta-method residual** of member `m` on step `i` (all equations): the formula of the
+    property statement with the member's own parameters and inputs -/
+def thetaRes (F : Residual) (I : Inst) (X : Vec) (m i : Nat) : List Rat :=
+  thetaSpec F I.sys.theta I.sys.t0 (I.pvals m) (traj I X m) (memberInputs I m) I.sys.ts i
+
+/-- equation `e` of it -/
+def thetaRow (F : Residual) (I : Inst) (X : Vec) (m i e : Nat) : Rat := (thetaRes F I X m i).getD e 0
+
+/-- physical state at `t0` -/
+def initState (I : Inst) (X : Vec) (m : Nat) : List Rat :=
+  (List.range I.sys.k).map (fun v => I.sys.nom v * X (I.idx m v 0))
+
+/-- initial derivatives: the decoded free initial-derivative variables for the differentiated
+    states; the backward difference of the last two history points (or `0`) otherwise -/
+def initDer (I : Inst) (X : Vec) (m : Nat) : List Rat :=
+  (List.range I.sys.k).map (fun v =>
+    if v < I.sys.nd then I.sys.dnom v * X (I.didx m v) else histDer (I.hist m v) I.sys.t0)
+
+/-- **initial residual** of member `m`: `F = 0` and the initial equations at `t0` (model time 0) -/
+def initRes (F Finit : Residual) (I : Inst) (X : Vec) (m : Nat) : List Rat :=
+  F (initState I X m) (initDer I X m) (memberInputs I m 0) 0 (I.pvals m)
+    ++ Finit (initState I X m) (initDer I X m) (memberInputs I m 0) 0 (I.pvals m)
+
+def initRow (F Finit : Residual) (I : Inst) (X : Vec) (m e : Nat) : Rat := (initRes F Finit I X m).getD e 0
+
+/-! ## Per-member parameters and constant inputs -/
+
+/-- the parameter classification ("constant over the ensemble" ⇒ inlined with member 0's value)
+    is invisible: every member's residual sees that member's own parameter values -/
+theorem C01_parameters_member_own (I : Inst) (hw : I.WF) (m : Nat) (hm : m < I.E) :
+    (I.mem m).par = I.pvals m :=
+  effPar_eq I.E I.npar I.pvals m hm (hw.par_len m hm)
+
+/-- the classification on the unrepaired tree (finding F1) is NOT invisible: with parameter
+    values `(1, 2)` over two members, member 1 sees `1` -/
+theorem C01_parameters_legacy_witness :
+    effParLegacy 2 1 (fun m => if m = 0 then [1] else [2]) 1 = [1]
+    ∧ effPar 2 1 (fun m => if m = 0 then [1] else [2]) 1 = [2]
+    ∧ effParLegacy 2 1 (fun m => if m = 0 then [0] else [5]) 1 = [0] := by
+  refine ⟨?_, ?_, ?_⟩ <;> decide +kernel
+
+/-- the constant inputs handed to the rows at collocation time `i` are the member's own series
+    evaluated at that time (interpolation mode of the input, `0` outside the series) -/
+theorem C01_inputs_member_own (I : Inst) (hw : I.WF) (m : Nat) (hm : m < I.E) (i : Nat)
+    (hi : i < I.sys.n) : inputsAt I.sys (I.mem m) i = memberInputs I m i := by
+  unfold inputsAt memberInputs
+  apply List.map_congr_left
+  intro j hj
+  have hj' := List.mem_range.1 hj
+  exact ciVals_getD (I.cmode j) (hw.cmode_ok j hj') (I.cin m j) (hw.cin_sorted m j hm hj')
+    (hw.cin_ne m j hm hj') I.sys.tsL i hi
+
+/-! ## The collocation rows are the theta-method residuals -/
+
+/-- **C01_rows_eq_theta**: for every member and every step, the rows the code assembles (index
+    lists `inds[:-1]` / `inds[1:]`, tiled nominals, column-major reshape, overwritten columns of
+    variables with their own stamps, slices of the mapped input row, finite differences, three-way
+    theta branch, `[:ne]` slice of the mapped output, inlined / per-member parameters,
+    interpolated inputs) are the theta-method residuals of the decoded physical trajectory with
+    that member's own parameters and inputs — for every residual function `F`. -/
+theorem C01_rows_eq_theta (F : Residual) (I : Inst) (hw : I.WF)
+    (hF : ∀ a b c d e, (F a b c d e).length = I.sys.ne) (X : Vec)
+    (m : Nat) (hm : m < I.E) (i : Nat) (hi : i < I.sys.n - 1) :
+    collocRowsCode F I.sys (I.mem m) X i = thetaRes F I X m i := by
+  rw [collocRows_eq_theta F I.sys (I.mem m) X hF i hi]
+  unfold thetaRes thetaSpec traj
+  rw [C01_parameters_member_own I hw m hm,
+    C01_inputs_member_own I hw m hm i (by omega),
+    C01_inputs_member_own I hw m hm (i + 1) (by omega)]
+  rfl
+
+/-- the same, equation by equation -/
+theorem C01_rows_eq_theta_entry (F : Residual) (I : Inst) (hw : I.WF)
+    (hF : ∀ a b c d e, (F a b c d e).length = I.sys.ne) (X : Vec)
+    (m : Nat) (hm : m < I.E) (i : Nat) (hi : i < I.sys.n - 1) (e : Nat) :
+    (collocRowsCode F I.sys (I.mem m) X i).getD e 0 = thetaRow F I X m i e := by
+  rw [C01_rows_eq_theta F I hw hF X m hm i hi]
+  rfl
+
+/-- **the formula of the property statement**, per equation:
+    `(1-θ)·F(z_i, ż, c_i, t_i-t0, p)_e + θ·F(z_{i+1}, ż, c_{i+1}, t_{i+1}-t0, p)_e` with
+    `ż = (z_{i+1} - z_i) / (t_{i+1} - t_i)` -/
+theorem C01_theta_row_formula (F : Residual) (I : Inst)
+    (hF : ∀ a b c d e, (F a b c d e).length = I.sys.ne) (X : Vec) (m i e : Nat) (he : e < I.sys.ne) :
+    thetaRow F I X m i e =
+      let z0 := traj I X m i
+      let z1 := traj I X m (i + 1)
+      let zd := (vsub z1 z0).map (· / (I.sys.ts (i + 1) - I.sys.ts i))
+      (1 - I.sys.theta) * (F z0 zd (memberInputs I m i) (I.sys.ts i - I.sys.t0) (I.pvals m)).getD e 0
+        + I.sys.theta * (F z1 zd (memberInputs I m (i + 1)) (I.sys.ts (i + 1) - I.sys.t0) (I.pvals m)).getD e 0 := by
+  unfold thetaRow thetaRes
+  rw [thetaSpec_eq_blend]
+  exact blend_getD _ _ _ _ (by rw [hF]; exact he) (by rw [hF]; exact he)
+
+/-- on the collocation grid itself (no own stamps) the decoded value is `nominal · X[index]`,
+    the number `extract_results` reports -/
+theorem C01_decode_same_grid (I : Inst) (X : Vec) (m v i : Nat) (h : I.sys.own v = none) :
+    decodeVar I.sys X (I.idx m) v i = I.sys.nom v * X (I.idx m v i) := by
+  simp [decodeVar, h]
+
+/-- a variable with its own (coarser) stamps enters the rows through the interpolant of its
+    **physical** values (nominal · decision variables at its own stamps) at the collocation time,
+    in its own interpolation mode -/
+theorem C01_decode_own_grid (I : Inst) (X : Vec) (m v i : Nat) (o : Own) (h : I.sys.own v = some o)
+    (hne : o.times ≠ []) :
+    decodeVar I.sys X (I.idx m) v i
+      = outRat (interpSym o.mode
+          (o.times.zip ((List.range o.times.length).map (fun q => I.sys.nom v * X (I.idx m v q))))
+          (I.sys.ts i)) := by
+  simp only [decodeVar, h]
+  exact interpOwn_physical X (I.idx m v) (I.sys.nom v) o (I.sys.ts i) hne
+
+/-! ## The special cases theta = 0 and theta = 1 -/
+
+/-- **C01_theta_branches**: the code's three-way branch (`theta == 0`: explicit residual only;
+    `theta == 1`: implicit residual only; else the blend) equals the blend formula for every
+    `theta`; in particular the two special cases are the formula at `theta = 0` and `theta = 1`. -/
+theorem C01_theta_branches (F : Residual) (ne : Nat) (hF : ∀ a b c d e, (F a b c d e).length = ne)
+    (theta tinit : Rat) (p s0 s1 c0 c1 : List Rat) (ta tb : Rat) :
+    let fd := (vsub s1 s0).map (· / (tb - ta))
+    collocBlock F theta tinit p s0 s1 c0 c1 ta tb
+        = blend theta (F s0 fd c0 (ta - tinit) p) (F s1 fd c1 (tb - tinit) p)
+    ∧ collocBlock F 0 tinit p s0 s1 c0 c1 ta tb = F s0 fd c0 (ta - tinit) p
+    ∧ collocBlock F 1 tinit p s0 s1 c0 c1 ta tb = F s1 fd c1 (tb - tinit) p
+    ∧ blend 0 (F s0 fd c0 (ta - tinit) p) (F s1 fd c1 (tb - tinit) p) = F s0 fd c0 (ta - tinit) p
+    ∧ blend 1 (F s0 fd c0 (ta - tinit) p) (F s1 fd c1 (tb - tinit) p) = F s1 fd c1 (tb - tinit) p := by
+  intro fd
+  refine ⟨collocBlock_eq_blend F ne hF theta tinit p s0 s1 c0 c1 ta tb, ?_, ?_, ?_, ?_⟩
+  · simp [collocBlock, fd]
+  · simp [collocBlock, fd]
+  · unfold blend
+    rw [sub_zero]
+    exact vadd_scale_zero_right _ _ (by rw [hF, hF])
+  · unfold blend
+    rw [sub_self]
+    exact vadd_scale_zero_left _ _ (by rw [hF, hF])
+
+/-! ## The initial rows -/
+
+/-- **C01_initial_rows**: the initial rows of member `m` are `F = 0` followed by the initial
+    equations, at the decoded state at `t0`, model time `0`, the member's inputs at `t0`, the
+    member's own parameters, and the initial derivatives = the member's free
+    initial-derivative variables (times their nominal) for differentiated states and the history
+    backward difference (or `0`) for algebraic states and controls. -/
+theorem C01_initial_rows (F Finit : Residual) (I : Inst) (hw : I.WF) (X : Vec)
+    (m : Nat) (hm : m < I.E) (hn : 0 < I.sys.n) :
+    initRowsCode F Finit I.sys (I.mem m) X = initRes F Finit I X m := by
+  rw [initRowsCode_eq F Finit I.sys (I.mem m) X hw.nd_le]
+  unfold initRes
+  rw [C01_parameters_member_own I hw m hm, C01_inputs_member_own I hw m hm 0 hn]
+  rfl
+
+/-! ## Every member, step, equation once — and nothing else -/
+
+/-- the specification of the whole list of model rows: initial rows member by member, then for
+    every member every step every equation -/
+def specRows (F Finit : Residual) (I : Inst) (X : Vec) : List Rat :=
+  (List.range I.E).flatMap (fun m => initRes F Finit I X m)
+    ++ (List.range I.E).flatMap (fun m => (List.range (I.sys.n - 1)).flatMap (fun i => thetaRes F I X m i))
+
+/-- **C01_complete_and_nothing_else**: the list of equality rows contributed on behalf of the
+    model is exactly `{initRes m} ++ {thetaRes m i}` — every member, every step, every equation
+    once, nothing else — with known length, every row at a known position, and all bounds `0 / 0`. -/
+theorem C01_complete_and_nothing_else (F Finit : Residual) (I : Inst) (hw : I.WF) (ni : Nat)
+    (hF : ∀ a b c d e, (F a b c d e).length = I.sys.ne)
+    (hFi : ∀ a b c d e, (Finit a b c d e).length = ni) (X : Vec) (hn : 0 < I.sys.n) :
+    gRows F Finit I X = specRows F Finit I X
+    ∧ (gRows F Finit I X).length = I.E * (I.sys.ne + ni) + I.E * ((I.sys.n - 1) * I.sys.ne)
+    ∧ (∀ m e, m < I.E → e < I.sys.ne + ni →
+        (gRows F Finit I X).getD (m * (I.sys.ne + ni) + e) 0 = initRow F Finit I X m e)
+    ∧ (∀ m i e, m < I.E → i < I.sys.n - 1 → e < I.sys.ne →
+        (gRows F Finit I X).getD
+          (I.E * (I.sys.ne + ni) + (m * ((I.sys.n - 1) * I.sys.ne) + (i * I.sys.ne + e))) 0
+          = thetaRow F I X m i e)
+    ∧ gBounds F Finit I X = List.replicate (I.E * (I.sys.ne + ni) + I.E * ((I.sys.n - 1) * I.sys.ne)) 0 := by
+  have h1 : gRows F Finit I X = specRows F Finit I X := by
+    unfold gRows specRows
+    congr 1
+    · apply flatMap_congr'
+      intro m hm
+      exact C01_initial_rows F Finit I hw X m (List.mem_range.1 hm) hn
+    · apply flatMap_congr'
+      intro m hm
+      unfold collocMemberRows
+      apply flatMap_congr'
+      intro i hi
+      exact C01_rows_eq_theta F I hw hF X m (List.mem_range.1 hm) i (List.mem_range.1 hi)
+  have hli : ∀ m, (initRes F Finit I X m).length = I.sys.ne + ni := by
+    intro m; simp [initRes, hF, hFi]
+  have hlt : ∀ m i, (thetaRes F I X m i).length = I.sys.ne := by
+    intro m i; exact thetaSpec_length F I.sys.ne hF _ _ _ _ _ _ _
+  have hlm : ∀ m, ((List.range (I.sys.n - 1)).flatMap (fun i => thetaRes F I X m i)).length
+      = (I.sys.n - 1) * I.sys.ne := by
+    intro m; exact flatMap_range_length _ _ (hlt m) _
+  have hA : ((List.range I.E).flatMap (fun m => initRes F Finit I X m)).length = I.E * (I.sys.ne + ni) :=
+    flatMap_range_length _ _ hli _
+  have hB : ((List.range I.E).flatMap (fun m => (List.range (I.sys.n - 1)).flatMap
+      (fun i => thetaRes F I X m i))).length = I.E * ((I.sys.n - 1) * I.sys.ne) :=
+    flatMap_range_length _ _ hlm _
+  have hlen : (gRows F Finit I X).length = I.E * (I.sys.ne + ni) + I.E * ((I.sys.n - 1) * I.sys.ne) := by
+    rw [h1]; unfold specRows; rw [List.length_append, hA, hB]
+  refine ⟨h1, hlen, ?_, ?_, ?_⟩
+  · intro m e hm he
+    rw [h1]
+    unfold specRows initRow
+    have hpos : m * (I.sys.ne + ni) + e < I.E * (I.sys.ne + ni) := by
+      calc m * (I.sys.ne + ni) + e < m * (I.sys.ne + ni) + (I.sys.ne + ni) := by omega
+        _ = (m + 1) * (I.sys.ne + ni) := by ring
+        _ ≤ I.E * (I.sys.ne + ni) := Nat.mul_le_mul_right _ hm
+    rw [List.getD_append _ _ _ _ (by rw [hA]; exact hpos)]
+    exact flatMap_range_getD _ _ 0 hli I.E m e hm he
+  · intro m i e hm hi he
+    rw [h1]
+    unfold specRows thetaRow
+    rw [List.getD_append_right _ _ _ _ (by rw [hA]; omega), hA, Nat.add_sub_cancel_left]
+    rw [flatMap_range_getD _ _ 0 hlm I.E m (i * I.sys.ne + e) hm (by
+      calc i * I.sys.ne + e < i * I.sys.ne + I.sys.ne := by omega
+        _ = (i + 1) * I.sys.ne := by ring
+        _ ≤ (I.sys.n - 1) * I.sys.ne := Nat.mul_le_mul_right _ hi)]
+    exact flatMap_range_getD _ _ 0 (hlt m) (I.sys.n - 1) i e hi he
+  · unfold gBounds
+    rw [hlen]
+
+/-! ## Feasible points satisfy the residuals -/
+
+/-- **C01_feasible_satisfies_residuals** (tolerance form): a decision vector that meets the
+    bounds `lbg ≤ g(X) ≤ ubg` of the model rows to within `eps` has every theta-method residual
+    and every initial residual within `eps` of zero — every member, step and equation. -/
+theorem C01_feasible_satisfies_residuals (F Finit : Residual) (I : Inst) (hw : I.WF) (ni : Nat)
+    (hF : ∀ a b c d e, (F a b c d e).length = I.sys.ne)
+    (hFi : ∀ a b c d e, (Finit a b c d e).length = ni) (X : Vec) (hn : 0 < I.sys.n) (eps : Rat)
+    (hfeas : ∀ r, r < (gRows F Finit I X).length →
+      (gBounds F Finit I X).getD r 0 - eps ≤ (gRows F Finit I X).getD r 0
+      ∧ (gRows F Finit I X).getD r 0 ≤ (gBounds F Finit I X).getD r 0 + eps) :
+    (∀ m i e, m < I.E → i < I.sys.n - 1 → e < I.sys.ne → |thetaRow F I X m i e| ≤ eps)
+    ∧ (∀ m e, m < I.E → e < I.sys.ne + ni → |initRow F Finit I X m e| ≤ eps) := by
+  obtain ⟨_, hlen, hinit, hstep, hb⟩ := C01_complete_and_nothing_else F Finit I hw ni hF hFi X hn
+  have hzero : ∀ r, r < (gRows F Finit I X).length → (gBounds F Finit I X).getD r 0 = 0 := by
+    intro r hr
+    rw [hb]
+    exact List.getD_replicate _ (by rw [← hlen]; exact hr)
+  constructor
+  · intro m i e hm hi he
+    have hpos : I.E * (I.sys.ne + ni) + (m * ((I.sys.n - 1) * I.sys.ne) + (i * I.sys.ne + e))
+        < (gRows F Finit I X).length := by
+      rw [hlen]
+      have h1 : i * I.sys.ne + e < (I.sys.n - 1) * I.sys.ne := by
+        calc i * I.sys.ne + e < i * I.sys.ne + I.sys.ne := by omega
+          _ = (i + 1) * I.sys.ne := by ring
+          _ ≤ (I.sys.n - 1) * I.sys.ne := Nat.mul_le_mul_right _ hi
+      have h2 : m * ((I.sys.n - 1) * I.sys.ne) + (i * I.sys.ne + e) < I.E * ((I.sys.n - 1) * I.sys.ne) := by
+        calc m * ((I.sys.n - 1) * I.sys.ne) + (i * I.sys.ne + e)
+            < m * ((I.sys.n - 1) * I.sys.ne) + (I.sys.n - 1) * I.sys.ne := by omega
+          _ = (m + 1) * ((I.sys.n - 1) * I.sys.ne) := by ring
+          _ ≤ I.E * ((I.sys.n - 1) * I.sys.ne) := Nat.mul_le_mul_right _ hm
+      omega
+    have := hfeas _ hpos
+    rw [hzero _ hpos, hstep m i e hm hi he] at this
+    exact abs_le.2 ⟨by linarith [this.1], by linarith [this.2]⟩
+  · intro m e hm he
+    have hpos : m * (I.sys.ne + ni) + e < (gRows F Finit I X).length := by
+      rw [hlen]
+      have : m * (I.sys.ne + ni) + e < I.E * (I.sys.ne + ni) := by
+        calc m * (I.sys.ne + ni) + e < m * (I.sys.ne + ni) + (I.sys.ne + ni) := by omega
+          _ = (m + 1) * (I.sys.ne + ni) := by ring
+          _ ≤ I.E * (I.sys.ne + ni) := Nat.mul_le_mul_right _ hm
+      omega
+    have := hfeas _ hpos
+    rw [hzero _ hpos, hinit m e hm he] at this
+    exact abs_le.2 ⟨by linarith [this.1], by linarith [this.2]⟩
+
+/-- exact form: `lbg ≤ g(X) ≤ ubg` with the zero bounds forces every residual to vanish -/
+theorem C01_feasible_exact (F Finit : Residual) (I : Inst) (hw : I.WF) (ni : Nat)
+    (hF : ∀ a b c d e, (F a b c d e).length = I.sys.ne)
+    (hFi : ∀ a b c d e, (Finit a b c d e).length = ni) (X : Vec) (hn : 0 < I.sys.n)
+    (hfeas : ∀ r, r < (gRows F Finit I X).length →
+      (gBounds F Finit I X).getD r 0 ≤ (gRows F Finit I X).getD r 0
+      ∧ (gRows F Finit I X).getD r 0 ≤ (gBounds F Finit I X).getD r 0) :
+    (∀ m i e, m < I.E → i < I.sys.n - 1 → e < I.sys.ne → thetaRow F I X m i e = 0)
+    ∧ (∀ m e, m < I.E → e < I.sys.ne + ni → initRow F Finit I X m e = 0) := by
+  have := C01_feasible_satisfies_residuals F Finit I hw ni hF hFi X hn 0
+    (by intro r hr; simpa using hfeas r hr)
+  exact ⟨fun m i e hm hi he => abs_nonpos_iff.1 (this.1 m i e hm hi he),
+         fun m e hm he => abs_nonpos_iff.1 (this.2 m e hm he)⟩
+
+
+/-! ## Non-vacuity: a concrete instance (cross-checked against the real `transcribe()`)
+
+One state `x` (nominal 2) and one control `u` (nominal 1/2), one constant input on the stamps
+`{0, 3}`, one parameter with the per-member values `(1, 2)` (the pattern of finding F1), two
+members, grid `0, 1, 3`, `theta = 1/4`, residual `der(x) + p·x - u - c + t`, initial equation
+`x - 5`; layout as the implementation lays it out (shared control first).  The same instance is in
+the corpus of `harness/c01.py`; the real code returns exactly the row values below. -/
+
+def F0 : Residual := fun v d c t p =>
+  [d.getD 0 0 + p.getD 0 0 * v.getD 0 0 - v.getD 1 0 - c.getD 0 0 + t]
+def Fi0 : Residual := fun v _ _ _ _ => [v.getD 0 0 - 5]
+
+def S0 : Sys where
+  k := 2
+  nd := 1
+  nc := 1
+  ne := 1
+  tsL := [0, 1, 3]
+  theta := 1 / 4
+  nom := fun v => if v = 0 then 2 else 1 / 2
+  dnom := fun _ => 2
+  own := fun _ => none
+
+def I0 : Inst where
+  sys := S0
+  E := 2
+  idx := fun m v i => if v = 1 then i else 3 + m * 4 + i
+  didx := fun m _ => 6 + m * 4
+  npar := 1
+  pvals := fun m => [(m : Rat) + 1]
+  cin := fun m _ => [(0, 1), (3, 4 + (m : Rat))]
+  cmode := fun _ => 0
+  hist := fun _ _ => none
+  extraU := fun _ _ => []
+  other := fun _ i => [1000 + (i : Rat)]
+
+def X0 : Vec := fun i => (i : Rat) + 1
+
+/-- a feasible decision vector of the example -/
+def Xfeas : Vec := fun i =>
+  [18, -128 / 3, 116, 5 / 2, 22 / 15, -37 / 45, 5 / 2, 5 / 2, 0, 0, 0].getD i 0
+
+theorem I0_wf : I0.WF where
+  par_len := by intro m _; simp [I0]
+  cin_sorted := by
+    intro m j _ _
+    show (0 : Rat) < 3 ∧ True
+    exact ⟨by norm_num, trivial⟩
+  cin_ne := by intro m j _ _; simp [I0]
+  cmode_ok := by intro j _; simp [I0]
+  nd_le := by decide
+
+theorem F0_len : ∀ a b c d e, (F0 a b c d e).length = I0.sys.ne := fun _ _ _ _ _ => rfl
+theorem Fi0_len : ∀ a b c d e, (Fi0 a b c d e).length = 1 := fun _ _ _ _ _ => rfl
+
+/-- the hypotheses of the theorems are satisfiable and the rows are not trivial: the model's rows
+    at `X = (1, 2, …, 11)` (the real `nlp['g']` evaluates to the same eight numbers) -/
+example : gRows F0 Fi0 I0 X0 = [41 / 2, 3, 105 / 2, 11, 71 / 8, 75 / 8, 799 / 24, 283 / 8] := by
+  decide +kernel
+
+/-- `C01_rows_eq_theta` instantiated: member 1 (parameter value 2, its own input series), step 1 -/
+example : thetaRes F0 I0 X0 1 1 = [283 / 8] := by
+  rw [← C01_rows_eq_theta F0 I0 I0_wf F0_len X0 1 (by decide) 1 (by decide)]
+  decide +kernel
+
+/-- members differ only through their own data: same step, member 0 -/
+example : thetaRes F0 I0 X0 0 1 = [75 / 8] := by
+  rw [← C01_rows_eq_theta F0 I0 I0_wf F0_len X0 0 (by decide) 1 (by decide)]
+  decide +kernel
+
+/-- the feasibility theorem is not vacuous: a decision vector with `lbg ≤ g(X) ≤ ubg` exists and
+    therefore has all residuals zero -/
+example : (∀ m i e, m < 2 → i < 2 → e < 1 → thetaRow F0 I0 Xfeas m i e = 0)
+    ∧ (∀ m e, m < 2 → e < 2 → initRow F0 Fi0 I0 Xfeas m e = 0) := by
+  have hg : gRows F0 Fi0 I0 Xfeas = [0, 0, 0, 0, 0, 0, 0, 0] := by decide +kernel
+  have hb : gBounds F0 Fi0 I0 Xfeas = [0, 0, 0, 0, 0, 0, 0, 0] := by
+    unfold gBounds; rw [hg]; rfl
+  refine C01_feasible_exact F0 Fi0 I0 I0_wf 1 F0_len Fi0_len Xfeas (by decide) ?_
+  intro r _
+  rw [hg, hb]
+  exact ⟨le_refl _, le_refl _⟩
+
+/-- a control on its own coarser stamps `{0, 3}` (linear mode): at the collocation time `1` the
+    rows see the interpolant of its physical values -/
+def S1 : Sys := { S0 with own := fun v => if v = 1 then some ⟨[0, 3], 0⟩ else none }
+def I1 : Inst := { I0 with sys := S1, idx := fun m v i => if v = 1 then i else 2 + m * 4 + i,
+                            didx := fun m _ => 5 + m * 4 }
+
+example : decode I1.sys X0 (I1.idx 0) 1 = [8, 2 / 3] := by decide +kernel
+
+example : decodeVar I1.sys X0 (I1.idx 0) 1 1 = 2 / 3 := by
+  rw [C01_decode_own_grid I1 X0 0 1 1 ⟨[0, 3], 0⟩ rfl (by simp)]
+  decide +kernel
+
 end RtcVerif.C01
